@@ -9,6 +9,7 @@
 #include <fcntl.h>
 #include <sys/mman.h>
 #include <sys/time.h>
+#include <malloc.h>
 
 #define VP_NSTAT 96
 struct vp_status { /* shared page, read by runner.py after the process ends (layout mirrored there) */
@@ -109,6 +110,7 @@ int vp_main (int argc, char **argv) {
   }
   if (from == 0 || st->magic != 0x5650535441545553ull) { memset (st, 0, sizeof *st); st->magic = 0x5650535441545553ull; }
   double t0 = now ();
+  mallopt (M_TRIM_THRESHOLD, 512 << 20); mallopt (M_MMAP_THRESHOLD, 64 << 20); mallopt (M_TOP_PAD, 64 << 20);
   drv_init (vp_thorough);
   uint64_t n = drv_ncases (); st->ncases = n;
   if (limit < n) n = limit;
